@@ -19,8 +19,8 @@ ASSUMPTIONS = ["numpy.fft is the reference DFT", "tolerance 1e-9*max(1,max|ref|)
 @st.composite
 def s_case(draw, force_huge=False):
     big = draw(st.integers(0, 9)) == 0
-    huge = force_huge or draw(st.integers(1, 2 ** 30)) % (60 if os.environ.get("VF_TIER") == "thorough" else 500) == 7
-    n = draw(st.sampled_from([131072, 100003, 2 ** 17 + 1, 2 ** 18 + 1, 300000, 2 ** 19 + 7] + ([2 ** 21, 2 ** 21 + 1] if os.environ.get("VF_TIER") == "thorough" else []))) if huge else \
+    huge = force_huge or draw(st.integers(1, 2 ** 30)) % 500 == 7          # (long records also have a part of their own)
+    n = draw(st.sampled_from([131072, 100003, 2 ** 17 + 1, 2 ** 18 + 1, 300000, 2 ** 19 + 7] + ([2 ** 21, 2 ** 21 + 1] if force_huge and os.environ.get("VF_TIER") == "thorough" else []))) if huge else \
         draw(st.sampled_from([2048, 4096, 4095, 2047, 8191, 16384, 32768, 20011])) if big else draw(st.one_of(st.sampled_from(LENGTHS), st.integers(1, 300)))
     x = draw(s_signal(n=n, fams=["gauss", "unif", "smallint", "spike", "const", "lead0", "alt", "periodic", "sorted", "sym"]))
     # units: amplitudes over 18 decades; "weakq": an O(1) real waveform with a quadrature component of 1e-12..1e-6
@@ -148,5 +148,5 @@ def e_case(c):
 
 
 PARTS = [Part("transforms", e_case, s_case(), quick=1500, thorough=30000, shards=16, quick_shards=2, rule=RULE[-120:]),
-         Part("huge", e_case, s_case(force_huge=True), quick=5, thorough=40, shards=16, quick_shards=4, shrink=False,
+         Part("huge", e_case, s_case(force_huge=True), quick=5, thorough=16, shards=16, quick_shards=4, shrink=False,
               rule="every case: 100003 .. 2^19+7 samples (block / switch-over sizes of long-record code paths)")]
